@@ -16,7 +16,9 @@ def file_path_to_key_path(file_path):
 
 
 def key_to_file_path(key):
-    return key
+    # a key is a path below the store root: different spellings of one path ("a//b", "./a/b") are one key
+    # (the cache is keyed by this name, so an unnormalised alias would be cached - and go stale - separately)
+    return os.path.normpath(key) if key else key
 
 
 def save_gzip_df_file(file_path, df):
